@@ -27,7 +27,11 @@ RULE = ("A case is a history over one fake node reached through the real Session
         "virtual thread); the 'paging' part has DSE continuous-paging sessions open on the connection; afterwards "
         "every request still held by the server is answered (late bytes) and a send is attempted on the dead "
         "connection.  Non-trivial: at least 2 handlers were registered at the failure point, or a paging session was "
-        "open, or a response was sent by the server after the failure.  Distinct by case digest.")
+        "open, or a response was sent by the server after the failure.  Part 'raising' (no simulator): 1-9 or 98-103 raw "
+        "handlers registered on a socket-less Connection, 1-4 of them raise ValueError/KeyError/RuntimeError/"
+        "AttributeError when failed, the connection is failed by error_all_requests / defunct / close; every handler "
+        "must still be invoked exactly once with a ConnectionShutdown (non-trivial: >= 3 handlers and a raiser that is "
+        "not the one run first).  Distinct by case digest.")
 ASSUMPTIONS = ["network, clock, executor and event loop are simulated (sim/); Cluster, Session, pools, connections, "
                "ResponseFuture, heartbeat, policies are the real classes",
                "close() is the simulated reactor's close(), a copy of what all six real reactors do (set is_closed under "
@@ -365,6 +369,81 @@ def s_paging(gran="blocking"):
                             "decisions": st.just([])})
 
 
+# ------------------------------------------------------------------ part 'handlers-that-raise' (no simulator)
+# A handler registered with send_msg is application-reachable code (ResponseFuture callbacks run inside it); one of
+# them raising while the connection is being failed must not leave the others unfailed (error_all_requests guards
+# every single invocation).  Direct: a socket-less Connection, N handlers in _requests, a generated subset raises.
+EXC_KINDS = {"value": ValueError, "key": KeyError, "runtime": RuntimeError, "attr": AttributeError}
+
+
+def s_raising():
+    n = st.one_of(st.integers(1, 9), st.sampled_from([98, 99, 100, 101, 102, 103]))
+    return n.flatmap(lambda k: st.fixed_dictionaries({
+        "kind": st.just("raising"), "n": st.just(k), "version": st.sampled_from([1, 2, 3, 4, 5]),
+        "raisers": st.lists(st.tuples(st.integers(0, k - 1), st.sampled_from(sorted(EXC_KINDS))), min_size=1,
+                            max_size=4, unique_by=lambda t: t[0]).map(lambda l: [list(t) for t in l]),
+        "via": st.sampled_from(["error_all_requests", "defunct", "close"]),
+        "order": st.sampled_from(["asc", "desc"])}))
+
+
+def interpret_raising(case, ctx):
+    import cassandra.connection as cc
+    from checks import _conn as C
+    conn = C.make_conn(case["version"])
+    n, raisers = case["n"], {i: EXC_KINDS[k] for i, k in case["raisers"]}
+    calls = {i: [] for i in range(n)}
+
+    def handler(i):
+        def cb(response):
+            calls[i].append(response)
+            if i in raisers:
+                raise raisers[i]("handler %d" % i)
+        return cb
+    idx = list(range(n)) if case["order"] == "asc" else list(range(n - 1, -1, -1))
+    with conn.lock:
+        for i in idx:
+            conn._requests[i] = (handler(i), None, None)
+    threads = []
+    real_thread = cc.Thread
+
+    class RecThread(real_thread):
+        def __init__(self, *a, **kw):
+            real_thread.__init__(self, *a, **kw)
+            threads.append(self)
+    cc.Thread = RecThread
+    try:
+        with ctx.driver(["C10.raising", case["via"]]):
+            exc = cc.ConnectionException("injected failure")
+            if case["via"] == "error_all_requests":
+                conn.error_all_requests(exc)
+            elif case["via"] == "defunct":
+                conn.defunct(exc)
+            else:
+                conn.close()                # FeedConnection.close: the reactors' contract (error_all_requests when not defunct)
+        for t in threads:
+            t.join(20)
+    finally:
+        cc.Thread = real_thread
+    pos = {i: ("first" if i == idx[-1] else "mid") for i in raisers}
+    for i in range(n):
+        got = calls[i]
+        if len(got) != 1:
+            ctx.fail(["C10.raising", "never" if not got else "twice", case["via"]],
+                     "%d handlers pending, handlers %s raise when failed: handler %d was invoked %d times on %s "
+                     "(expected exactly once)" % (n, sorted(raisers), i, len(got), case["via"]))
+            break
+        if not isinstance(got[0], cc.ConnectionShutdown):
+            ctx.fail(["C10.raising", "wrong-argument", type(got[0]).__name__],
+                     "handler %d was failed with %r, not a ConnectionShutdown" % (i, got[0]))
+            break
+    ctx.label("raising:n=%s" % (n if n < 10 else "98-103"))
+    ctx.label("raising:via=" + case["via"])
+    ctx.label("raising:first-run-raises=%s" % ("first" in pos.values()))
+    if threads:
+        ctx.label("has:helper-thread-path")
+    ctx.nontrivial(n >= 3 and any(v == "mid" for v in pos.values()))
+
+
 def parts(tier):
     return [
         hyp_part("v3plus", lambda: s_general("blocking", [3, 4, 4, 5]), interpret, tier, quick=110, thorough=1500,
@@ -374,6 +453,8 @@ def parts(tier):
         hyp_part("bulk", s_bulk, interpret, tier, quick=14, thorough=120, quick_shards=1, thorough_shards=2),
         hyp_part("heartbeat", s_heartbeat, interpret, tier, quick=50, thorough=500, quick_shards=1, thorough_shards=2),
         hyp_part("paging", s_paging, interpret, tier, quick=90, thorough=1000, quick_shards=1, thorough_shards=2),
+        hyp_part("raising", s_raising, interpret_raising, tier, quick=300, thorough=4000, quick_shards=1,
+                 thorough_shards=2),
         hyp_part("locks", lambda: s_general("locks", [2, 3, 4, 4, 5], mifs=(3, 3, 4, 4, 5, 8)), interpret, tier,
                  quick=50, thorough=700, quick_shards=1, thorough_shards=3),
     ]
